@@ -292,6 +292,22 @@ pub fn after_server_frame(sim: &mut Sim, ticked: bool, t: u32, injected: bool) {
         }
     }
     // C07: a client whose protocol differs is never authorised, is notified and asked to disconnect.
+    // ... and a client with the same protocol whose hash reached the server is authorised by the frame that
+    // processes it, whatever other clients sent (C14 states the equivalence, C06 the "whatever").
+    for c in 0..sim.clients.len() {
+        if sim.prof.wrong_proto & (1 << c) != 0 || sim.prof.app.auth != 0 || sim.clients[c].ever_injected {
+            continue;
+        }
+        let Some(s) = sim.clients[c].sess.as_ref() else { continue };
+        let Some(f) = s.hash_delivered_frame else { continue };
+        if sim.server_frames > f + 1 && s.ce.is_some() && !s.authorized && !s.disconnect_requested {
+            let d = format!("client {c} presented the server's own protocol hash {} server frames ago and is still not authorized", sim.server_frames - f);
+            if sim.stats.faults.contains_key("byzantine_bytes") {
+                sim.violate("C06", "honest_client_not_authorized", format!("[after malformed input from another client] {d}"));
+            }
+            sim.violate("C14", "matching_client_not_authorized", d);
+        }
+    }
     for c in 0..sim.clients.len() {
         if sim.prof.wrong_proto & (1 << c) == 0 || sim.prof.app.auth != 0 {
             continue;
@@ -1420,6 +1436,9 @@ pub fn end_of_run(sim: &mut Sim) {
         let sess_up = sim.clients[e.client].sess.as_ref().map(|s| s.up() && Some(s.id) == e.session).unwrap_or(false);
         if e.on_wire > 0 && sess_up && running && !e.lost_in_flight && e.kind != CEv::Unrel && e.seen.is_empty() && (e.kind != CEv::Map && e.kind != CEv::Trig || e.expected_server_ent.is_some() || e.ent.is_none()) {
             v.push(("C05", "client_event_lost", format!("client event {:?} seq {} was sent by client {} but never observed by the server", e.kind, e.seq, e.client)));
+            if sim.stats.faults.contains_key("byzantine_bytes") && !sim.clients[e.client].ever_injected {
+                v.push(("C06", "honest_client_event_lost", format!("[after malformed input from another client] client event {:?} seq {} of client {} never reached the server's logic", e.kind, e.seq, e.client)));
+            }
         }
         if e.eligible && e.client_frame_after && sess_up && e.on_wire == 0 && e.ent.is_none() {
             v.push(("C05", "client_event_not_sent", format!("client event {:?} seq {} written while connected was never put on the wire", e.kind, e.seq)));
